@@ -315,6 +315,11 @@ def normalisation_ops(fn, callee):
 
 def main(argv=None):
     ck = Check("C10", argv, level="proof")
+    return run(ck)
+
+
+def run(ck, framing_only=False, finish=True):
+    """framing_only: leave out the request-line sites (C01 uses the framing-critical sites only)"""
     ck.trusted.extend(TRUSTED)
     repo = ck.repo
     spec_regexes = [rfc.CHUNK_LINE, rfc.HEADER_LINE, rfc.REQUEST_LINE, rfc.CONTENT_LENGTH, rfc.PY_INT10, rfc.PY_INT16]
@@ -360,46 +365,47 @@ def main(argv=None):
         conv_obligation(ck, alpha, res, "receiver.ChunkedReceiver.received/conv:int16-defined", 16, rfc.PY_INT16, "chunk_line",
                         "every token reaching int(line, 16) is in int()'s base-16 literal syntax (no ValueError; power-of-two base has no digit limit)")
 
-    # ---- site B1: request line
-    siteB = SITES[1]
-    res, err, secs = run_site(siteB)
-    obn = "parser.HTTPRequestParser.parse_header/site:request-line/lang-eq"
-    if res is None:
-        ck.ob(obn, "undecided", backend="sitelang", secs=secs, detail={"reason": err})
-    else:
-        acc = res["domain"] - res["refuse"]
-        note = res["dominfo"] + "; ops: " + ", ".join(res["ev"].ops_seen) + "; patterns: " + repr(res["ev"].patterns_used)
-        compare(ck, alpha, obn, acc, D(rfc.REQUEST_LINE), res["domain"], "request_line",
-                "first line is not refused  <=>  it is token SP target [ SP 'HTTP/' DIGIT '.' DIGIT ]", secs, note)
+    if not framing_only:
+        # ---- site B1: request line
+        siteB = SITES[1]
+        res, err, secs = run_site(siteB)
+        obn = "parser.HTTPRequestParser.parse_header/site:request-line/lang-eq"
+        if res is None:
+            ck.ob(obn, "undecided", backend="sitelang", secs=secs, detail={"reason": err})
+        else:
+            acc = res["domain"] - res["refuse"]
+            note = res["dominfo"] + "; ops: " + ", ".join(res["ev"].ops_seen) + "; patterns: " + repr(res["ev"].patterns_used)
+            compare(ck, alpha, obn, acc, D(rfc.REQUEST_LINE), res["domain"], "request_line",
+                    "first line is not refused  <=>  it is token SP target [ SP 'HTTP/' DIGIT '.' DIGIT ]", secs, note)
 
-    # ---- site B2: bytes dropped in front of the request line
-    t0 = time.time()
-    obn = "parser.HTTPRequestParser.received/site:head-normalisation/removed-subset"
-    ck.under_contract("parser.HTTPRequestParser.received", role="normalisation of the head block before parse_header")
-    try:
-        fnr = repo.find("parser.HTTPRequestParser.received")
-        ops = normalisation_ops(fnr, "parse_header")
-        removed_front = rl.EPS
-        removed_back = rl.EPS
-        for meth, arg in ops:
-            mask = rl.mask_of(arg) if arg is not None else BYTES_WS
-            if meth in ("strip", "lstrip"):
-                removed_front = rl.rcat(removed_front, rl.rstar(rl.rset(mask)))
-            if meth in ("strip", "rstrip"):
-                removed_back = rl.rcat(removed_back, rl.rstar(rl.rset(mask)))
-        code_front = D(removed_front)
-        spec_front = D(rfc.LEADING_EMPTY_LINES)
-        # the head block ends right before CRLFCRLF; nothing may be removed at its end
-        code_back = D(removed_back)
-        # compare as token languages: w is "accepted in front" iff it can be dropped
-        compare(ck, alpha, obn, code_front, spec_front | (code_front & spec_front), universe, "leading_bytes",
-                "bytes silently dropped before the request line are empty lines (CRLF)* only", time.time() - t0,
-                "ops between s[:index] and parse_header(): %r" % (ops,))
-        if not (code_back - D(rl.EPS)).is_empty():
-            w = (code_back - D(rl.EPS)).shortest()
-            ck.fail(obn, "witness-back:" + w.hex(), "bytes %r dropped at the end of the head block" % w, reproduced=False)
-    except Unsupported as ex:
-        ck.ob(obn, "undecided", backend="sitelang", secs=time.time() - t0, detail={"reason": str(ex)})
+        # ---- site B2: bytes dropped in front of the request line
+        t0 = time.time()
+        obn = "parser.HTTPRequestParser.received/site:head-normalisation/removed-subset"
+        ck.under_contract("parser.HTTPRequestParser.received", role="normalisation of the head block before parse_header")
+        try:
+            fnr = repo.find("parser.HTTPRequestParser.received")
+            ops = normalisation_ops(fnr, "parse_header")
+            removed_front = rl.EPS
+            removed_back = rl.EPS
+            for meth, arg in ops:
+                mask = rl.mask_of(arg) if arg is not None else BYTES_WS
+                if meth in ("strip", "lstrip"):
+                    removed_front = rl.rcat(removed_front, rl.rstar(rl.rset(mask)))
+                if meth in ("strip", "rstrip"):
+                    removed_back = rl.rcat(removed_back, rl.rstar(rl.rset(mask)))
+            code_front = D(removed_front)
+            spec_front = D(rfc.LEADING_EMPTY_LINES)
+            # the head block ends right before CRLFCRLF; nothing may be removed at its end
+            code_back = D(removed_back)
+            # compare as token languages: w is "accepted in front" iff it can be dropped
+            compare(ck, alpha, obn, code_front, spec_front | (code_front & spec_front), universe, "leading_bytes",
+                    "bytes silently dropped before the request line are empty lines (CRLF)* only", time.time() - t0,
+                    "ops between s[:index] and parse_header(): %r" % (ops,))
+            if not (code_back - D(rl.EPS)).is_empty():
+                w = (code_back - D(rl.EPS)).shortest()
+                ck.fail(obn, "witness-back:" + w.hex(), "bytes %r dropped at the end of the head block" % w, reproduced=False)
+        except Unsupported as ex:
+            ck.ob(obn, "undecided", backend="sitelang", secs=time.time() - t0, detail={"reason": str(ex)})
 
     # ---- site C0: physical header lines (bare CR / LF)
     siteC0 = SITES[2]
@@ -458,6 +464,8 @@ def main(argv=None):
         ("header_line", "header-line", D(rfc.HEADER_LINE), "parser.HTTPRequestParser.parse_header/site:header-line/lang-eq", None),
     ]
     for routine, sname, specd, obname, _ in bounded_sites:
+        if framing_only and sname == "request-line":
+            continue
         t0 = time.time()
         rep = ck.native("enumerate", {"routine": routine, "alphabet": reps, "k": k}, timeout=1200)
         if "error" in rep:
@@ -507,6 +515,8 @@ def main(argv=None):
         "Content-Length values are factors of logical header lines (field values are sub-strings of lines)",
     ])
     ck.samples.extend([o.as_json() for o in ck.obs[:4]])
+    if not finish:
+        return None
     return ck.finish(
         "Each acceptance site's refused-token language is computed from the AST of the real function with regular pre-images (exact for every length) "
         "and compared with the grammar automaton by product construction; witnesses are replayed through the real function. "
